@@ -59,7 +59,7 @@ fn gen_inject(r: &mut Rng, victim: u32, peer: u32, spoofing: bool) -> Op {
             foreign: !spoofing,
         },
         1 => {
-            let kind = *r.pick(&["gap", "gap", "heartbeat", "acknack", "nackfrag", "datafrag", "datafrag", "data", "heartbeatfrag", "sub", "sub", "plist", "plist", "info", "info"]);
+            let kind = *r.pick(&["gap", "gap", "heartbeat", "acknack", "nackfrag", "datafrag", "datafrag", "data", "heartbeatfrag", "sub", "sub", "plist", "plist", "info", "info", "spdp"]);
             let (a, b, c, d) = match kind {
                 "sub" => (r.below(256) as i64, r.below(256) as i64, *r.pick(&[0i64, 1, 3, 4, 8, 12, 24, 100, 3000]), r.below(256) as i64),
                 "datafrag" if r.chance(0.4) => {
@@ -71,6 +71,7 @@ fn gen_inject(r: &mut Rng, victim: u32, peer: u32, spoofing: bool) -> Op {
                     (-2, 1, (n << 16) | fs, *r.pick(&[0x0000_0002i64, 0x0000_0102, 0x0000_03c2, 0x0000_04c2, 0x0000_02c2]) | (size << 32))
                 }
                 "datafrag" => (*r.pick(&big), *r.pick(&[0i64, 1, 2, 0xFFFF_FFFF, 1000]), (*r.pick(&[0i64, 1, 2, 0xFFFF]) << 16) | *r.pick(&[0i64, 1, 8, 1344, 0xFFFF]), *r.pick(&writers) | (*r.pick(&[0i64, 1, 100, 0xFFFF_FFFF, 70_000]) << 32)),
+                "spdp" => (*r.pick(&[1i64, 2, 2, 2, 0, -1, 3, 0x0100_0000, 8]), *r.pick(&[7410i64, 0, 1, 65535, 65536, 0xFFFF_FFFF]), r.below(3) as i64, r.below(5) as i64),
                 "plist" => (*r.pick(&[0x0050i64, 0x0005, 0x0007, 0x002c, 0x0029, 0x4014, 0x0031, 0x0058, 0x0075, 0x8000, 0x7fff]), *r.pick(&[0i64, 4, 8, 12, 16, 0xFFFC, 0xFFFF]), *r.pick(&[0i64, 1, 0xFFFF_FFFF, 0x7FFF_FFFF, 1000]), *r.pick(&writers)),
                 _ => (*r.pick(&big), *r.pick(&big), *r.pick(&big), *r.pick(&writers)),
             };
